@@ -123,12 +123,13 @@ def random_line(rng: random.Random, maxlen: int = 60) -> bytes:
 
 def gopher_ambiguous(selector: bytes) -> bool:
     """A Gopher selector whose bytes also have the documented shape of a request of a
-    protocol listed earlier (Spartan: three blank-separated parts, the last all digits;
+    protocol listed earlier (Spartan: host, absolute path, digits, blank-separated;
     HTTP: GET/HEAD x HTTP/...; Gemini: starts with gemini://).  Such a line is, by the
     documented autodetection order, not a Gopher request."""
     line = selector.strip()
     parts = line.split(b" ")
-    if len(parts) == 3 and all(parts) and parts[2].isdigit():
+    if len(parts) == 3 and all(parts) and parts[2].isdigit() and parts[1].startswith(b"/") \
+            and not parts[0].startswith(b"/"):
         try:
             line.decode("ascii")
             return True
